@@ -392,7 +392,7 @@ template <typename T> struct Spec
     bool force_acc = false;
     Integrand<T> f; Map<T> map;
     bool builtin = true; int mode = 0; T target = T(); std::vector<bool> script;
-    std::string filename; bool keepfile = false; bool cbbase = false; bool cbref = false; int subcomm = 0;
+    std::string filename; bool keepfile = false; bool cbbase = false; bool cbref = false; int subcomm = 0; int ofmt = 0; bool iexc = false; int coutfmt = 0;
 };
 
 #ifdef VERIF_MPI
@@ -454,6 +454,19 @@ template <typename T, typename C, typename MkMpi> Sx run_mpi_op(Spec<T> const& s
 }
 #endif
 
+// the state a user's stream may be in when it is handed to the library (bit set): 1 fixed, 2 scientific (3 = both: hexfloat),
+// 4 precision 3, 8 precision 30, 16 showpoint, 32 width 14 with fill '*' (applies to the first item only), 64 left, 128 boolalpha
+inline void user_format(std::ios_base& s, int f)
+{
+    if (f & 1) s.setf(std::ios_base::fixed);
+    if (f & 2) s.setf(std::ios_base::scientific);
+    if (f & 4) s.precision(3);
+    if (f & 8) s.precision(30);
+    if (f & 16) s.setf(std::ios_base::showpoint);
+    if (f & 64) s.setf(std::ios_base::left, std::ios_base::adjustfield);
+    if (f & 128) s.setf(std::ios_base::boolalpha);
+}
+
 template <typename T, typename C, typename Mk, typename MkMpi> Sx run_ops(Spec<T>& sp, Sx const& ops, C chk, Mk run_one, MkMpi run_mpi_one)
 {
     Sx out = Sx::list();
@@ -483,11 +496,12 @@ template <typename T, typename C, typename Mk, typename MkMpi> Sx run_ops(Spec<T
             catch (std::out_of_range const&) { out.add(Sx::list({Sx::sym("rollback"), Sx::sym("throw")})); }
         }
         else if (o == "dump") out.add(Sx::list({Sx::sym("dump"), e_chk<T>(chk)}));
-        else if (o == "text") { std::ostringstream t; chk.serialize(t); out.add(Sx::list({Sx::sym("text"), Sx::str(t.str())})); }
+        else if (o == "text") { std::ostringstream t; user_format(t, sp.ofmt); chk.serialize(t); out.add(Sx::list({Sx::sym("text"), Sx::str(t.str())})); }
         else if (o == "reload")
         {
-            std::ostringstream t; chk.serialize(t);
+            std::ostringstream t; user_format(t, sp.ofmt); chk.serialize(t);
             std::istringstream in(t.str());
+            if (sp.iexc) in.exceptions(std::ios::failbit | std::ios::badbit);     // a user who wants read errors reported by exceptions
             C n = reload<T>(chk, in);
             if (in.fail()) { out.add(Sx::list({Sx::sym("reload"), Sx::sym("stream_failed")})); break; }
             chk = n;
@@ -518,6 +532,7 @@ template <typename T, typename C, typename Mk, typename MkMpi> Sx run_ops(Spec<T
             // read a checkpoint from a file (C18: resume from what a killed process left behind)
             std::ifstream in(op.at(1).S_(), std::ios::binary);
             if (!in) { out.add(Sx::list({Sx::sym("load"), Sx::sym("no_file")})); continue; }
+            if (sp.iexc) in.exceptions(std::ios::failbit | std::ios::badbit);
             C n = reload<T>(chk, in);
             if (in.fail()) { out.add(Sx::list({Sx::sym("load"), Sx::sym("stream_failed")})); break; }
             chk = n;
@@ -610,6 +625,18 @@ template <typename T> Sx run_case(std::string const& cmd, Sx const& a)
     sp.cbbase = num("cbbase", 0) != 0;
     sp.cbref = num("cbref", 0) != 0;
     sp.subcomm = static_cast<int>(num("subcomm", 0));
+    sp.ofmt = static_cast<int>(num("ofmt", 0));
+    sp.iexc = num("iexc", 0) != 0;
+    sp.coutfmt = static_cast<int>(num("coutfmt", 0));
+    // the state the program left std::cout in before it handed control to the library (restored when the case ends)
+    struct CoutGuard
+    {
+        std::ios_base::fmtflags flags; std::streamsize prec;
+        CoutGuard() : flags(std::cout.flags()), prec(std::cout.precision()) {}
+        ~CoutGuard() { std::cout.flags(flags); std::cout.precision(prec); }
+    } cout_guard;
+    user_format(std::cout, sp.coutfmt);
+    if (sp.coutfmt & 256) std::cout.precision(std::numeric_limits<T>::max_digits10);
     Sx const& ops = a.find("ops")->at(1);
     Sx const& ck = a.find("chk")->at(1);
     bool const with_dists = !sp.dists.empty() || sp.force_acc;
